@@ -81,11 +81,37 @@ class MsgDef:
 
 
 @dataclass
+class ConstDef:
+    name: str
+    value: Any  # int | bool | str
+    expr: Optional[str] = None  # source text of the value (defaults to the literal)
+    parent: Optional["MsgDef"] = None
+
+
+@dataclass
 class Schema:
     proto: str
-    defs: List[Any]  # top-level definitions in declaration order
+    defs: List[Any]  # top-level definitions in declaration order (EnumDef | AliasDef | MsgDef | ConstDef)
+    imports: List[Tuple["Schema", Optional[str]]] = field(default_factory=list)  # (schema, `as` name)
+    options: List[Tuple[str, Any]] = field(default_factory=list)  # proto-level options
+    filename: Optional[str] = None  # base name of the file (defaults to proto name)
 
-    def messages(self) -> List[MsgDef]:
+    def base(self) -> str:
+        return self.filename or self.proto
+
+    def all_files(self) -> List["Schema"]:
+        out: List[Schema] = []
+
+        def walk(s: "Schema") -> None:
+            for (i, _) in s.imports:
+                walk(i)
+            if not any(o is s for o in out):
+                out.append(s)
+
+        walk(self)
+        return out
+
+    def messages(self) -> List["MsgDef"]:
         out: List[MsgDef] = []
 
         def walk(d):
@@ -119,7 +145,29 @@ def c_name(d) -> str:
     return "".join(scope_names(d))
 
 
+PRINT_CTX: Dict[str, Any] = {"schema": None}
+
+
+def import_prefix(d) -> str:
+    """`name.` under which the file that declares d is visible in the file being printed"""
+    cur = PRINT_CTX.get("schema")
+    home = getattr(d, "home", None)
+    if cur is None or home is None or home is cur:
+        return ""
+    for (imp, as_name) in cur.imports:
+        if imp is home:
+            return (as_name or imp.proto) + "."
+    return ""
+
+
 def bp_ref(d, frm: Optional[MsgDef]) -> str:
+    pre = import_prefix(d)
+    if pre:
+        return pre + ".".join(scope_names(d))
+    return _bp_ref_local(d, frm)
+
+
+def _bp_ref_local(d, frm: Optional[MsgDef]) -> str:
     """name by which definition d is referenced in bitproto text from inside message `frm`
     (None = top level): relative to the innermost enclosing message of `frm` that also
     encloses `d` (an enclosing message is not yet a member of its parent while it is being
@@ -215,14 +263,27 @@ def type_text(t, frm: Optional[MsgDef]) -> str:
     if isinstance(t, TInt):
         return f"int{t.n}"
     if isinstance(t, TArray):
-        return f"{type_text(t.elem, frm)}[{t.cap}]" + ("'" if t.ext else "")
+        cap = getattr(t, "cap_text", None) or str(t.cap)
+        return f"{type_text(t.elem, frm)}[{cap}]" + ("'" if t.ext else "")
     if isinstance(t, TRef):
         return bp_ref(t.d, frm)
     raise TypeError(t)
 
 
+def lit_text(v: Any) -> str:
+    if isinstance(v, bool):
+        return "true" if v else "false"
+    if isinstance(v, int):
+        return str(v)
+    esc = {"\\": "\\\\", '"': '\\"', "\n": "\\n", "\t": "\\t", "\r": "\\r"}
+    return '"' + "".join(esc.get(c, c) for c in v) + '"'
+
+
 def print_def(d, ind: int, out: List[str], semi=lambda: "") -> None:
     pad = "    " * ind
+    if isinstance(d, ConstDef):
+        out.append(f"{pad}const {d.name} = {d.expr if d.expr is not None else lit_text(d.value)}{semi()}")
+        return
     if isinstance(d, EnumDef):
         out.append(f"{pad}enum {d.name} : uint{d.nbits} {{")
         for n, v in d.members:
@@ -232,6 +293,8 @@ def print_def(d, ind: int, out: List[str], semi=lambda: "") -> None:
         out.append(f"{pad}type {d.name} = {type_text(d.type, d.parent)}{semi()}")
     elif isinstance(d, MsgDef):
         out.append(f"{pad}message {d.name}{chr(39) if d.ext else ''} {{")
+        for (on, ov) in getattr(d, "options", []):
+            out.append(f"{pad}    option {on} = {lit_text(ov)}{semi()}")
         for n in d.nested:
             print_def(n, ind + 1, out, semi)
         for f in d.fields:
@@ -243,11 +306,39 @@ def print_def(d, ind: int, out: List[str], semi=lambda: "") -> None:
 
 def schema_text(s: Schema, rng: Optional[random.Random] = None) -> str:
     semi = (lambda: rng.choice(["", ";"])) if rng else (lambda: "")
-    out = [f"proto {s.proto}", ""]
+    PRINT_CTX["schema"] = s
+    try:
+        out = [f"proto {s.proto}", ""]
+        for (imp, as_name) in s.imports:
+            out.append(f'import {as_name + " " if as_name else ""}"{imp.base()}.bitproto"{semi()}')
+        for (on, ov) in s.options:
+            out.append(f"option {on} = {lit_text(ov)}{semi()}")
+        if s.imports or s.options:
+            out.append("")
+        for d in s.defs:
+            print_def(d, 0, out, semi)
+            out.append("")
+        return "\n".join(out) + "\n"
+    finally:
+        PRINT_CTX["schema"] = None
+
+
+def set_home(s: Schema) -> None:
+    """record the declaring file on every definition (needed for cross-file references)"""
+
+    def walk(d) -> None:
+        d.home = s
+        if isinstance(d, MsgDef):
+            for n in d.nested:
+                walk(n)
+
     for d in s.defs:
-        print_def(d, 0, out, semi)
-        out.append("")
-    return "\n".join(out) + "\n"
+        walk(d)
+
+
+def program_files(main: Schema, rng: Optional[random.Random] = None) -> Dict[str, str]:
+    """{file name: text} of a multi-file program"""
+    return {f"{f.base()}.bitproto": schema_text(f, rng) for f in main.all_files()}
 
 
 # ---------------------------------------------------------------- generator
@@ -511,3 +602,126 @@ def leaf_count(t) -> int:
         if isinstance(d, MsgDef):
             return sum(leaf_count(f.type) for f in d.fields)
     return 1
+
+
+# ---------------------------------------------------------------- multi-file programs
+@dataclass
+class ProgOpts:
+    n_imports: Tuple[int, int] = (0, 2)
+    consts: bool = True
+    options: bool = True
+    different_filenames: bool = False  # file base name != proto name (KF-include-name); off by default
+    gen: GenOpts = field(default_factory=GenOpts)
+
+
+class ProgramGen:
+    """main schema + imported schemas (imports with and without `as`), constants (used as array
+    capacities), proto- and message-level options; every cross-file reference uses the dotted
+    name of the import."""
+
+    def __init__(self, rng: random.Random, opts: Optional[ProgOpts] = None) -> None:
+        self.rng = rng
+        self.o = opts or ProgOpts()
+        self.names = 0
+
+    def one(self, visible: List[Schema], idx: int) -> Schema:
+        r = self.rng
+        g = SchemaGen(r, self.o.gen)
+        g.counter = 1000 * idx + r.randrange(500)
+        # definitions of imported files are usable as types
+        pre: List[Any] = []
+        for imp in visible:
+            for d in imp.defs:
+                if isinstance(d, (EnumDef, AliasDef, MsgDef)):
+                    pre.append(d)
+                    if isinstance(d, MsgDef):
+                        pre.extend(n for n in d.nested)
+        s = g.schema()
+        # re-generate with imported definitions visible: simplest is to patch some field types
+        msgs = s.messages()
+        for m in msgs:
+            for f in m.fields:
+                if pre and r.random() < 0.25:
+                    d = r.choice(pre)
+                    f.type = TArray(TRef(d), r.choice(BOUNDARY_CAPS), False) if r.random() < 0.3 else TRef(d)
+            while msg_nbits(m) > self.o.gen.max_bits and m.fields:
+                m.fields.pop()
+        consts: List[ConstDef] = []
+        if self.o.consts:
+            for k in range(r.randint(0, 3)):
+                kind = r.random()
+                nm = f"{'KLMNPQ'[idx % 6]}_CONST_{'ABCDEFGH'[k]}"
+                if kind < 0.6:
+                    v = r.choice([1, 2, 3, 7, 8, 16, 255, r.randint(1, 40)])
+                    consts.append(ConstDef(nm, v))
+                elif kind < 0.8:
+                    consts.append(ConstDef(nm, r.random() < 0.5))
+                else:
+                    consts.append(ConstDef(nm, r.choice(["hello", "a b", "x/y.z", "v1"])))
+            ints = [c for c in consts if isinstance(c.value, int) and not isinstance(c.value, bool)]
+            if ints:
+                for m in msgs:
+                    for f in m.fields:
+                        if isinstance(f.type, TArray) and r.random() < 0.4:
+                            c = r.choice(ints)
+                            f.type.cap = c.value
+                            f.type.cap_text = c.name
+                    while msg_nbits(m) > self.o.gen.max_bits and m.fields:
+                        m.fields.pop()
+        s.defs = consts + s.defs
+        if self.o.options and r.random() < 0.5:
+            if r.random() < 0.6:
+                s.options.append(("c.name_prefix", r.choice(["Xy", "lib_", "Zq"])))
+            if r.random() < 0.3:
+                s.options.append(("go.package_path", "example.com/pkg"))
+        if self.o.options:
+            for m in msgs:
+                if r.random() < 0.15:
+                    m.options = [("max_bytes", (msg_nbits(m) + 7) // 8 + r.randint(0, 3))]
+        s.proto = f"p{'abcdefghij'[idx % 10]}{'klmnopqrst'[r.randrange(10)]}{'uvwxyz'[r.randrange(6)]}"
+        if self.o.different_filenames and r.random() < 0.4:
+            s.filename = s.proto + "_file"
+        return s
+
+    def program(self) -> Schema:
+        r = self.rng
+        n = r.randint(*self.o.n_imports)
+        files: List[Schema] = []
+        for k in range(n):
+            s = self.one([f for f in files if r.random() < 0.5], k + 1)
+            for f in files:
+                if any(isinstance(x, TRef) and getattr(x.d, "home", None) is f for x in _all_types(s)):
+                    if not any(i is f for (i, _) in s.imports):
+                        s.imports.append((f, r.choice([None, None, f"imp{k}{'ab'[r.randrange(2)]}"])))
+            set_home(s)
+            files.append(s)
+        main = self.one(files, 0)
+        for f in files:
+            used = any(isinstance(x, TRef) and getattr(x.d, "home", None) is f for x in _all_types(main))
+            if used or r.random() < 0.3:
+                main.imports.append((f, r.choice([None, None, f"lib{'xyz'[r.randrange(3)]}{len(main.imports)}"])))
+        set_home(main)
+        # names under which imports are visible must be unique and must not clash with definitions
+        return main
+
+
+def _all_types(s: Schema) -> List[Any]:
+    out: List[Any] = []
+
+    def wt(t) -> None:
+        out.append(t)
+        if isinstance(t, TArray):
+            wt(t.elem)
+
+    def wd(d) -> None:
+        if isinstance(d, AliasDef):
+            wt(d.type)
+        elif isinstance(d, MsgDef):
+            for n in d.nested:
+                wd(n)
+            for f in d.fields:
+                wt(f.type)
+
+    for d in s.defs:
+        wd(d)
+    return out
